@@ -37,15 +37,18 @@ def errQ (T : Table) (Q : Nat → Rat) : Rat := sumTo T.nH (fun i => Q i * T.err
 
 def gamQ (T : Table) (Q : Nat → Rat) (j : Nat) : Rat := sumTo T.nH (fun i => Q i * T.gam j i)
 
-def viol (T : Table) (Q : Nat → Rat) (j : Nat) : Rat := gamQ T Q j - T.c j
+/-- one entry of `gamma - self.constraints.bound()` (lifted: `EGGen.violOf`) -/
+def viol (T : Table) (Q : Nat → Rat) (j : Nat) : Rat := EGGen.violOf (gamQ T Q j) (T.c j)
 
+/-- `L = error + np.sum(lambda_vec * (gamma - self.constraints.bound()))`, computed with the lifted expressions
+    `EGGen.lagrOf` / `EGGen.lagrTerm`; `Lemmas/Saddle.lean:lagr_def` is the closed form the proofs use -/
 def lagr (T : Table) (Q lam : Nat → Rat) : Rat :=
-  errQ T Q + sumTo T.nC (fun j => lam j * viol T Q j)
+  EGGen.lagrOf (errQ T Q) (sumTo T.nC (fun j => EGGen.lagrTerm (lam j) (gamQ T Q j) (T.c j)))
 
 /-- `(gamma - bound).max()` (for `nC = 0` pandas gives NaN and `NaN > 0` is False; here the value is
     `viol 0` of out-of-range reads = 0, which takes the same branch of `lHigh`) -/
 def maxViol (T : Table) (Q : Nat → Rat) : Rat :=
-  (List.range T.nC).foldl (fun acc j => EGGen.max2 acc (viol T Q j)) (viol T Q 0)
+  (List.range T.nC).foldl (fun acc j => EGGen.violAgg acc (viol T Q j)) (viol T Q 0)
 
 def lHigh (T : Table) (B : Rat) (Q : Nat → Rat) : Rat := EGGen.lHigh (errQ T Q) B (maxViol T Q)
 
